@@ -33,6 +33,7 @@ Step(a) ==
     \/ a.op = "Remove" /\ (RemoveDel(a.k) \/ RemoveNew(a.k))
     \/ a.op = "Create" /\ (Create(a.k) \/ CreateDangling(a.k))
     \/ a.op = "Evict" /\ Evict(a.c)
+    \/ a.op = "Corrupt" /\ Corrupt(a.c)
     \/ a.op = "End" /\ (End \/ Crash \/ EndDoomed \/ \E k \in AllKeys : PromptDel(k) \/ PromptNew(k)) /\ res' = ResOf(a.res)
 Match == Have /\ Step(Ev.act) /\ ws' = WsOf(Ev.ws) /\ cache' = CacheOf(Ev.cache) /\ l' = l + 1 /\ UNCHANGED tid
 Say(tag, prop, clause) == PrintT(<<tag, prop, clause, tid, l, dev'>>)
@@ -67,7 +68,7 @@ Judge ==
     /\ ((ended /\ R.kind = "PromptError" /\ R.key # Root) =>
             (W.files[R.key] = args'.pre.files[R.key] \/ Say("VERDICT", "C05", "RefusedFileTouched")))
     \* C10 (and C07): the cache is never modified by a checkout, apart from dropping corrupt objects at Begin
-    /\ ((op # "Evict" => \A c \in Contents : cache[c] = "ok" => cache'[c] = "ok") \/ Say("VERDICT", "C10", "CacheObjectChanged"))
+    /\ ((op \notin {"Evict", "Corrupt"} => \A c \in Contents : cache[c] = "ok" => cache'[c] = "ok") \/ Say("VERDICT", "C10", "CacheObjectChanged"))
     \* C07: what a checkout puts into the workspace is the target's bytes (or, with symbolic links, a dangling
     \* link when the object is gone) - never the bytes of a corrupt object
     /\ ((op = "Create" => W.files[Ev.act.k].c \in {NewOid(args.t, Ev.act.k)[2], "dangling"})
